@@ -62,6 +62,11 @@ func init() {
 			}},
 		Rule{ID: "C06.j", Explain: "aliasing discipline: issuance messages and the builder state are not modified in place - no function mutates in place a big.Int it reached through gabi.CredentialBuilder / gabi.IssueSignatureMessage / gabi.IssueCommitmentMessage / gabi.Credential (math/big mutators write their receiver), except the tabled merge/refresh functions.",
 			Run: func(P *Program, R *Report) { inPlaceDisciplineRule(P, R, "C06.j", "gabi.CredentialBuilder", "gabi.IssueSignatureMessage", "gabi.IssueCommitmentMessage", "gabi.Credential") }},
+		Rule{ID: "C06.l", Explain: "a builder can commit again: no field of the credential builder that Commit (or the functions it calls) writes is read there before it was written in the same call - a commitment kept from an earlier call would be hashed while the response uses the new randomiser, and the honest second attempt is refused.",
+			Run: func(P *Program, R *Report) {
+				noCrossCallStateRuleFor(P, R, "C06.l", map[string]bool{"gabi.CredentialBuilder": true},
+					[]string{"gabi.(*CredentialBuilder).Commit", "gabi.(*CredentialBuilder).CommitToSecretAndProve"}, 1, nil)
+			}},
 		Rule{ID: "C06.k", Explain: "an altered commitment proof is rejected: ProofU accept => key 0 (the secret-key base) has no entry in MUserResponses, so part of the secret-key response cannot be moved into a second response that SecretKeyResponse() does not report (same rule as C03.c).",
 			Run: func(P *Program, R *Report) {
 				noKeyZero(P, R, "C06.k", "gabi.ProofU.MUserResponses", "<gabi.ProofU>.MUserResponses", proofUParts(P, R, "C06.k"))
